@@ -26,7 +26,7 @@ ASSUMPTIONS = ["criteria as worded in the property statement",
 def generate(seed, tier):
     rng = stream(seed, "c07")
     big = tier == "thorough" and rng.random() < 0.15
-    spec = gen_instance(rng, huge=0.05, max_jobs=6 if big else 5, max_machines=5 if big else 4, max_ops=5 if big else 4)
+    spec = gen_instance(rng, huge=0.05, sparse_ids=0.03, large=0.008, max_jobs=6 if big else 5, max_machines=5 if big else 4, max_ops=5 if big else 4)
     names, style = gen_filter(rng, None, p_none=0.2)
     only_av = rng.random() < 0.5
     ops = gen_dispatch_ops(rng, n_ops(spec), p_query=0.05, p_reset=0.02, src_av=1.0 if only_av else 0.5)
